@@ -189,7 +189,7 @@ Definition step (g : graph) (c : cfg) (st : state) (e : event) : option state :=
       end
   | SFB n =>
       match ph st n with
-      | NeedFetch => Some (set_ph st n MF1)
+      | NeedFetch => if memb n (cached st) then None else Some (set_ph st n MF1)
       | Rdy sk => if memb n (cached st) then None else Some (set_ph st n (F1 sk))
       | _ => None
       end
@@ -219,7 +219,10 @@ Definition step (g : graph) (c : cfg) (st : state) (e : event) : option state :=
           let nxt := if rd then Closing sk else after_push c n sk in
           let tg := if ref then Some n else tag st in
           match r with
-          | POk => Some (mkState (upd (ph st) n nxt) (n :: dst st) (cached st) tg (returned st))
+          | POk =>
+              (* content is stored only when absent: a store holding it answers ErrAlreadyExists *)
+              if has g (dst st) n then None
+              else Some (mkState (upd (ph st) n nxt) (n :: dst st) (cached st) tg (returned st))
           | PExists =>
               if has g (dst st) n
               then Some (mkState (upd (ph st) n nxt) (dst st) (cached st) tg (returned st))
